@@ -328,21 +328,22 @@ class ChildWorld:
 
     def run(self, lifetime):
         self.boot()
-        _send(self.wfd, {"boot": True, "hook_clock": self.hook_clock, "hook_cap": self.hook_cap})
+        _send(self.wfd, {"__boot__": True, "hook_clock": self.hook_clock, "hook_cap": self.hook_cap})
         import random
         random.seed(int(lifetime.get("pyseed", 12345)))
         for ei, ep in enumerate(lifetime["episodes"]):
             slot = ep.get("obj", 0)
-            if ep.get("new", False) or slot not in self.objs:
-                self.objs[slot] = self.make_engine(ep["kind"], ep.get("via", "LibRDEngine"))
-            eng = self.objs[slot]
+            if ep.get("new", False) or slot not in self.objs or self.objs[slot][0] != ep["kind"]:
+                # an engine object has a fixed kind: a slot is re-created when the kind changes
+                self.objs[slot] = (ep["kind"], self.make_engine(ep["kind"], ep.get("via", "LibRDEngine")))
+            eng = self.objs[slot][1]
             setup_failed = False
             for oi, op in enumerate(ep["ops"]):
                 if setup_failed and op[0] != "setup":
                     # the native singleton was never (re)initialised: nothing meaningful can follow
                     _send(self.wfd, {"op": op[0], "skipped": True, "e": ei, "i": oi})
                     continue
-                _send(self.wfd, {"mark": (ei, oi)})
+                _send(self.wfd, {"__mark__": (ei, oi)})
                 try:
                     ev = self.exec_op(ep, eng, op, ep["script"])
                 except Exception as e:  # recorded, judged by the oracles
@@ -353,7 +354,7 @@ class ChildWorld:
                 ev["e"] = ei
                 ev["i"] = oi
                 _send(self.wfd, ev)
-        _send(self.wfd, {"done": True})
+        _send(self.wfd, {"__done__": True})
 
 
 def _child_main(case, lt_index, libpath, wfd, efd):
@@ -445,11 +446,11 @@ def run_lifetime(case, lt_index, libpath, timeout=30.0):
                         break
                     obj = pickle.loads(bytes(buf[4:4 + n]))
                     del buf[:4 + n]
-                    if "mark" in obj:
-                        res.mark = obj["mark"]
-                    elif "boot" in obj:
+                    if "__mark__" in obj:
+                        res.mark = obj["__mark__"]
+                    elif "__boot__" in obj:
                         res.boot = obj
-                    elif "done" in obj:
+                    elif "__done__" in obj:
                         pass
                     elif "harness_exc" in obj:
                         res.harness_exc = obj["harness_exc"]
